@@ -475,10 +475,16 @@ PyObject* Matcher::match(PyObject* ra_array, // all in degrees
     const SpatialIndex &index = this->htm_interface.index();
 
 
+    // The triangle search takes the cosine of the radius, which rounds to 1
+    // (a cap of size zero) below about 1e-6 degrees: pairs that straddle a
+    // triangle edge were lost for such radii.  Search a cap of at least this
+    // size; the exact distance cut below still uses the requested radius.
+    static const double MIN_SEARCH_RADIUS=1.0e-5;
+
     double rad=0, d=0;
     if (nrad == 1) {
         rad = *(double *) PyArray_GETPTR1((PyArrayObject *) radius_array, 0);
-        d = cos( rad*D2R );
+        d = cos( (rad > MIN_SEARCH_RADIUS ? rad : MIN_SEARCH_RADIUS)*D2R );
     }
 
     npy_intp ninput = PyArray_SIZE((PyArrayObject *) ra_array);
@@ -490,7 +496,7 @@ PyObject* Matcher::match(PyObject* ra_array, // all in degrees
 
         if (nrad > 1) {
             rad = *(double *) PyArray_GETPTR1((PyArrayObject *) radius_array, i_input);
-            d = cos( rad*D2R );
+            d = cos( (rad > MIN_SEARCH_RADIUS ? rad : MIN_SEARCH_RADIUS)*D2R );
         }
 
         // Find the triangles around this point
